@@ -241,6 +241,21 @@ class _RE:
         pass
 
 
+class _RE_busy(_RE):
+    """the engine's loop does not answer within the 0.1 s that SuspenderBase.__make_event waits: the trip is registered
+    all the same (tripped is True; the event is made later, when a plan is about to start)"""
+
+    class _L(_RE._L):
+        def call_soon_threadsafe(self, f, *a):
+            class H:
+                def cancel(self):
+                    pass
+
+            return H()
+
+    _loop = _L()
+
+
 def make(cls, case):
     import bluesky.suspenders as S
 
@@ -270,15 +285,17 @@ def run_impl(case):
         s = make(cls, case)
     except ValueError:
         return {"ctor": "ValueError"}
-    s.RE = _RE()
+    s.RE = _RE_busy() if case.get("busy") else _RE()
     flags = []
     import contextlib
     import io
 
     with contextlib.redirect_stdout(io.StringIO()):
-        for v in case["values"]:
+        for i, v in enumerate(case["values"]):
             try:
-                s(v)
+                # the way ophyd calls a subscriber: the previous value comes along; the very first call (the replay of the
+                # cached reading when the suspender is installed) carries old_value == value
+                s(v, old_value=(case["values"][i - 1] if i else v), timestamp=0.0)
             except RuntimeError:  # asyncio.Event() outside a loop on some versions -- not part of the model
                 pass
             flags.append(bool(s.tripped))
@@ -371,6 +388,12 @@ def _cases(ctx):
     yield from exhaustive_cases(lim)
     for _ in range(ctx.budget(1500, 40000)):
         yield gen_case(ctx.rng)
+    # a few cases in which the engine's loop is too busy to make the suspender's event in time (0.1 s real time per trip)
+    for _ in range(ctx.budget(6, 40)):
+        c = gen_case(ctx.rng)
+        c["values"] = c["values"][:3]
+        c["busy"] = True
+        yield c
 
 
 def _nontrivial(case, obs):
